@@ -221,6 +221,8 @@ class ReferenceCache:
         block: gtirb.Block,
         to_block: Optional[gtirb.Block],
         at_end: bool,
+        *,
+        keep_end_references: bool = False,
     ) -> None:
         """Retarget all block references to point to to_block instead.
 
@@ -231,6 +233,8 @@ class ReferenceCache:
         :param to_block: block to move references to
         :param at_end: whether to move references to the start or end of
              to_block
+        :param keep_end_references: references to the end of block stay
+             references to the end of to_block regardless of at_end
         """
         if not any(block.references) and block not in self._references:
             # No direct or indirect references, so nothing to retarget.
@@ -270,11 +274,16 @@ class ReferenceCache:
         else:
             target_ref = self._references[to_block][0]
 
+        if keep_end_references:
+            end_target_ref = self._references[to_block][1]
+        else:
+            end_target_ref = target_ref
+
         # Point source-block references to the target block.
         target_ref.children.add(start_refs)
-        target_ref.children.add(end_refs)
+        end_target_ref.children.add(end_refs)
         start_refs.parent = target_ref
-        end_refs.parent = target_ref
+        end_refs.parent = end_target_ref
 
     def get_references(self, block: gtirb.Block) -> Iterator[gtirb.Symbol]:
         """
